@@ -15,26 +15,57 @@ order_key('time:struct_time', 'st_epoch')
 
 contract('saml2_tophat.time_util:utc_now', trusted=True, pure=True, params=[], returns='Int',
          ensures=['result == NOW'], assumptions=['E-CLOCK'])
-contract('saml2_tophat.time_util:str_to_time', trusted=True, pure=True, params=['timestr', 'format'],
-         defaults={'format': '%Y-%m-%dT%H:%M:%SZ'},
-         types={'timestr': 'Opt(Str)'}, returns="Union(Int, Inst('time:struct_time'))",
+# E-REGEX: compiled regular expressions (module- or class-level constants) ------------------------------------
+ghost('pattern_matches', ['Val', 'Val', 'Val'], 'Bool')     # (pattern object, how: 'match'|'search'|'fullmatch', string)
+declare_class('re:Pattern', fields={}, methods={'match': 're:Pattern.match', 'search': 're:Pattern.search', 'fullmatch': 're:Pattern.fullmatch'})
+for _how in ('search', 'fullmatch'):       # ('match' returns a Match object: contract above)
+    contract('re:Pattern.' + _how, trusted=True, pure=True, params=['self', 'string'], returns='Any',
+             ensures=['truthy(result) == pattern_matches(self, %r, string)' % _how], raises={'TypeError': 'not (is_str(string) or is_bytes(string))'},
+             assumptions=['E-REGEX'], note='whether a compiled pattern matches is an uninterpreted fact of (pattern, string)')
+
+
+
+# str_to_time is VERIFIED against the meaning of epoch / parsable, which is defined (DEF-TIME below) in terms of the two
+# external parsers it is built from: time.strptime and the compiled pattern TIME_FORMAT_WITH_FRAGMENT (E-TIMEPARSE)
+TF = '%Y-%m-%dT%H:%M:%SZ'
+ghost('strp_ok', ['Val', 'Val'], 'Bool')        # time.strptime(text, format) accepts the text
+ghost('strp_epoch', ['Val', 'Val'], 'Int')      # ... and the seconds since the epoch its result denotes (read as UTC)
+ghost('frag_match', ['Val'], 'Bool')            # TIME_FORMAT_WITH_FRAGMENT.match(text) matches
+ghost('frag_base', ['Val'], 'Val')              # ... and its first group (the seconds-resolution part)
+contract('time:strptime', trusted=True, pure=True, params=['string', 'format'], returns="Inst('time:struct_time')",
+         ensures=['strp_ok(string, format)', 'st_epoch(result) == strp_epoch(string, format)'],
+         raises={'ValueError': 'not strp_ok(string, format)', 'TypeError': 'not is_str(string)'}, assumptions=['E-TIMEPARSE'])
+declare_class('re:Match', fields={}, methods={'groups': 're:Match.groups'})
+ghost('match_of', ['Val'], 'Val')               # the text a Match object came from
+contract('re:Pattern.match', trusted=True, pure=True, params=['self', 'string'], returns="Opt(Inst('re:Match'))",
+         ensures=['(result is not None) == pattern_matches(self, "match", string)', 'implies(result is not None, match_of(result) == string)'],
+         raises={'TypeError': 'not (is_str(string) or is_bytes(string))'}, assumptions=['E-REGEX'])
+contract('re:Match.groups', trusted=True, pure=True, params=['self'], returns='List(Opt(Str))',
+         ensures=['len(result) >= 1', 'result[0] == frag_base(match_of(self))', 'is_str(result[0])'], assumptions=['E-REGEX'],
+         note='only used for TIME_FORMAT_WITH_FRAGMENT, whose first group always takes part in a match')
+contract('saml2_tophat.time_util:str_to_time', params=None, pure=True,
+         types={'timestr': 'Opt(Str)', 'format': 'Str'}, returns="Union(Int, Inst('time:struct_time'))",
+         requires=["format == %r" % TF],
          ensures=['implies(not truthy(timestr), result == 0)',
                   "implies(truthy(timestr), typed(result, \"Inst('time:struct_time')\") and st_epoch(result) == epoch(timestr))"],
          raises={'ValueError': 'truthy(timestr) and not parsable(timestr)',
                  'AttributeError': 'truthy(timestr) and not parsable(timestr)'},
-         assumptions=['E-TIMEPARSE'],
-         note='str_to_time is repository code; its string parsing is covered by the bounded differential of C04, '
-              'the proofs are parametric in epoch/parsable')
+         modifies=[], assumptions=['E-TIMEPARSE'],
+         note='verified: the result denotes exactly the instant the text denotes at seconds resolution (a fraction is dropped, nothing is added)')
 contract('calendar:timegm', trusted=True, pure=True, params=['tuple'], returns='Int',
          types={'tuple': "Union(Int, Inst('time:struct_time'))"},
          requires=["typed(tuple, \"Inst('time:struct_time')\")"],
          ensures=['result == st_epoch(tuple)'], assumptions=['E-CLOCK'])
 
 
-# E-REGEX: compiled regular expressions (module- or class-level constants) ------------------------------------
-ghost('pattern_matches', ['Val', 'Val', 'Val'], 'Bool')     # (pattern object, how: 'match'|'search'|'fullmatch', string)
-declare_class('re:Pattern', fields={}, methods={'match': 're:Pattern.match', 'search': 're:Pattern.search', 'fullmatch': 're:Pattern.fullmatch'})
-for _how in ('match', 'search', 'fullmatch'):
-    contract('re:Pattern.' + _how, trusted=True, pure=True, params=['self', 'string'], returns='Any',
-             ensures=['truthy(result) == pattern_matches(self, %r, string)' % _how], raises={'TypeError': 'not (is_str(string) or is_bytes(string))'},
-             assumptions=['E-REGEX'], note='whether a compiled pattern matches is an uninterpreted fact of (pattern, string)')
+from pyvc.state import axiom
+_PM = "pattern_matches(regex_object('saml2_tophat.time_util.TIME_FORMAT_WITH_FRAGMENT'), 'match', t)"
+_BZ = "vstr(concat(str_of(frag_base(t)), 'Z'))"
+# DEF-TIME: what a timestamp text denotes, in terms of the two external parsers (this is the documented behaviour: the text is
+# read with TIME_FORMAT; failing that, a fractional-seconds spelling is reduced to its seconds-resolution part)
+axiom('parsable', 'DEF-TIME[parsable]',
+      "forall(lambda t: parsable(t) == (is_str(t) and (strp_ok(t, %r) or (%s and strp_ok(%s, %r)))), 'Val')" % (TF, _PM, _BZ, TF),
+      modname='saml2_tophat.time_util')
+axiom('epoch', 'DEF-TIME[epoch]',
+      "forall(lambda t: epoch(t) == ite(strp_ok(t, %r), strp_epoch(t, %r), strp_epoch(%s, %r)), 'Val')" % (TF, TF, _BZ, TF),
+      modname='saml2_tophat.time_util')
